@@ -833,7 +833,7 @@ func C18(ctx *core.Ctx) error {
 	}
 	signRes := make([]c18SignResult, len(signCases))
 	var signWG sync.WaitGroup
-	signSem := make(chan struct{}, 4)
+	signSem := make(chan struct{}, ctx.Pick(4, 6))
 	tSign := time.Now()
 	for i := range signCases {
 		signWG.Add(1)
